@@ -726,6 +726,47 @@ def _cmp_facts(fn):
             if tk in INT_MAX:
                 for v, tb in t["ts"]:
                     out.append((b, tb, "Eq", t["d"], {"k": {"int": v, "ty": fn.locals[l]["ty"], "s": str(v)}}))
+    # x.contains(&v) on a range literal:  on the true edge  lo <= v  and  v < hi  (or v <= hi)
+    for c in fn.calls:
+        m = re.search(r"ops::range::(Range|RangeInclusive|RangeFrom|RangeTo|RangeToInclusive)::<[^>]*>::contains$", c.path or "")
+        if not m or len(c.args) != 2 or len(c.dest) != 1:
+            continue
+        def _deref(op):
+            l = op_base(op)
+            for _ in range(6):
+                if l is None:
+                    return None
+                d = fn.single_def(l)
+                if d and d[1] != "term" and d[2]["k"] == "ref" and (len(d[2]["p"]) == 1 or d[2]["p"][1:] == ["*"]):
+                    l = d[2]["p"][0]
+                    continue
+                if d and d[1] != "term" and d[2]["k"] == "use" and op_base(d[2]["a"]) is not None and len(op_place(d[2]["a"])) == 1 and not fn.local_name(l):
+                    l = op_base(d[2]["a"])
+                    continue
+                return l
+            return l
+        rl, vl = _deref(c.args[0]), _deref(c.args[1])
+        if rl is None or vl is None:
+            continue
+        lo = hi = None
+        incl = m.group(1) in ("RangeInclusive", "RangeToInclusive")
+        d = fn.single_def(rl)
+        if d and d[1] == "term":
+            rc = fn.call_at(d[0])
+            if rc is not None and re.search(r"RangeInclusive::<[^>]*>::new$", rc.path or "") and len(rc.args) == 2:
+                lo, hi = rc.args
+        elif d and d[2]["k"] == "agg":
+            for nme, o in zip(d[2].get("fields", []), d[2].get("ops", [])):
+                if nme == "start":
+                    lo = o
+                elif nme == "end":
+                    hi = o
+        v = {"c": [vl]}
+        for (sb, tt, ft) in bool_branch(fn, c.dest[0]):
+            if lo is not None:
+                out.append((sb, tt, "Ge", v, lo))
+            if hi is not None:
+                out.append((sb, tt, "Le" if incl else "Lt", v, hi))
     fn._cmp_facts = out
     return out
 
